@@ -516,8 +516,10 @@ class Project(MessageHandler):
                 if horizon_start and horizon_end and any(
                     d is not None and (d < horizon_start or d > horizon_end) for d in (start, end)
                 ):
-                    # Pinned outside the scheduling horizon: leave it to the main loop,
-                    # whose range check reports it as not schedulable.
+                    # Pinned outside the scheduling horizon (be it by less than a slot, which
+                    # the main loop's slot-based range check cannot see): not schedulable.
+                    self.warning("task_outside_project", f"Task {task.fullId} is pinned outside the project period")
+                    invalid_tasks.append(task)
                     continue
                 # Only mark as scheduled if we can set both dates
                 # Milestones with dependencies but no dates need to go through normal scheduling
